@@ -41,7 +41,7 @@ CONSTANTS Miners,       \* coinbase identities (small integers)
           BaseReward, Fee,
           WorkShares,   \* pool of extra work shares (small integers)
           WSMiner, WSNumber, WSWeight,   \* attributes of the pool's shares (functions over WorkShares)
-          Layouts, Bytes
+          Profiles      \* what a block's miner may ask for: set of <<miner, byte, layout, contract>>
 
 Gen == 0
 VARIABLES blocks,  \* id -> block record (the tree; immutable once mined)
@@ -232,12 +232,15 @@ SetHead(b) == /\ b \in Ids /\ b # cur
               /\ hist' = Append(hist, [op |-> "sethead", b |-> b])
               /\ UNCHANGED blocks
 
+\* forks start at the head or one of its two nearest ancestors; all-or-nothing choices for work shares and arrivals
+Parents == {cur} \cup (IF cur = Gen THEN {} ELSE {blocks[cur].parent})
+                 \cup (IF cur = Gen \/ blocks[cur].parent = Gen THEN {} ELSE {blocks[blocks[cur].parent].parent})
 Next ==
     /\ step < MaxBlocks + 2
-    /\ \/ \E p \in Ids, m \in Miners, y \in Bytes, lay \in Layouts, k \in {0} \cup Contracts \cup NoCode :
-             \E unc \in SUBSET IncludableShares(p, blocks[p].height + 1), n \in 0..Len(Outstanding(p)), cl \in ClaimLists(p) :
-                 MineBlock(p, m, y, lay, k, unc, n, cl)
-       \/ \E b \in Ids : SetHead(b)
+    /\ \/ \E p \in Parents, pr \in Profiles :
+             \E unc \in {{}, IncludableShares(p, blocks[p].height + 1)}, n \in {0, Len(Outstanding(p))}, cl \in ClaimLists(p) :
+                 MineBlock(p, pr[1], pr[2], pr[3], pr[4], unc, n, cl)
+       \/ \E b \in Ids : SetHead(b) /\ blocks[cur].height > blocks[b].height     \* switch back to a shorter branch only
 Spec == Init /\ [][Next]_vars
 
 ----------------------------------------------------------------------------
